@@ -110,6 +110,7 @@ type Sched struct {
 	timers []*VTimer
 
 	afterFuncs []*afterFunc
+	noPoint    int          // > 0: inside a shim's own bookkeeping, where plain points (polls) do not yield
 	closed     []closedChan // closed channels by address; ref keeps the channel alive so the address is not reused (no map: the runtime's map code is race-instrumented)
 	objIDs     map[any]int
 
@@ -201,7 +202,7 @@ func (s *Sched) canonical(me *Thread) (ids []int, curEn bool) {
 //go:norace
 func Point(kind OpKind, obj Waitable) {
 	s := S
-	if s == nil {
+	if s == nil || s.noPoint > 0 {
 		return
 	}
 	s.point(kind, obj, nil)
